@@ -548,6 +548,67 @@ Section Greedy.
     end.
 End Greedy.
 
+(* ------------------------------------------------------------------ the second layout of inFlowLayout
+
+   blocks.go:956-985: a block child A that is not the first box of its page (canBreak) is laid
+   out with the bottomSpace R of its parent; when its content box fits (contentPageOverflow
+   false) but its border box does not (borderPageOverflow), it is laid out a second time with
+   R + padding-bottom + border-bottom-width.  Everything inside A is then broken against the
+   smaller room, although a fragment of A that ends at a break carries no bottom padding /
+   border (box-decoration-break: slice): the reservation is what the *complete* block needs.
+   `reserve` is the bottomSpace in force for a break before unit b on the page starting at s
+   (height H): the sum of the decorations of the blocks around the boundary whose second
+   layout is triggered, outermost first (each trigger is evaluated with the reservation of the
+   blocks around it, as the nested calls do).  Used by Check/C12.v to name pages that end
+   early for this reason only; the theorems state the two sides of it: a page that fits with
+   the reservation fits, and without bottom decoration there is no reservation. *)
+
+(* every block of the flow: first unit, last unit, position of its closing in the closes of
+   its last unit (innermost first), padding-bottom + border-bottom.  In closing order (a
+   block before the blocks around it). *)
+Record blk := mkBlkR { b_first : nat; b_last : nat; b_pos : nat; b_dec : Z }.
+
+Fixpoint close_blocks (i pos : nat) (cs : list cls) (stack : list nat) (acc : list blk) : list nat * list blk :=
+  match cs, stack with
+  | c :: r, f :: st => close_blocks i (S pos) r st (mkBlkR f i pos (c_pb c) :: acc)
+  | _, _ => (stack, acc)
+  end.
+
+Fixpoint blocks_from (i : nat) (us : list unit) (stack : list nat) (acc : list blk) : list blk :=
+  match us with
+  | [] => acc
+  | u :: r =>
+      let stack1 := repeat i (length (u_opens u)) ++ stack in
+      let '(stack2, acc2) := close_blocks i 0 (u_closes u) stack1 acc in
+      blocks_from (S i) r stack2 acc2
+  end.
+
+(* outermost first among nested blocks (reverse closing order) *)
+Definition blocks_of (us : list unit) : list blk := blocks_from 0 us [] [].
+
+(* bottom of the content box of block A on the page starting at s: everything up to its
+   last unit and the blocks closing inside it; a pending bottom margin is inside the content
+   box when A has bottom padding / border (it cannot collapse through) *)
+Definition block_content_bottom (keep_margins : bool) (us : list unit) (s : nat) (a : blk) : Z :=
+  let toks := page_toks us s (b_last a) ++
+              (let u := unit_at us (b_last a) in
+               map (fun o => TO (o_mt o) (o_pt o)) (u_opens u) ++ [TU (u_h u)] ++
+               map (fun c => TC (c_pb c) (c_mb c)) (firstn (b_pos a) (u_closes u))) in
+  let st := fold_left scan1 toks (init_sst keep_margins) in
+  (s_y st + (if (0 <? b_dec a)%Z then s_m st else 0))%Z.
+
+Definition retry_step (keep_margins : bool) (us : list unit) (forced : nat -> bool) (h : Q) (s b : nat)
+    (r : Z) (a : blk) : Z :=
+  if (s <? b_first a) && (b_first a <? b) && (b <=? b_last a) && (0 <? b_dec a)%Z &&
+     forallb (fun c => negb (forced c)) (seq (S (b_first a)) (b_last a - b_first a)) then
+    let c := block_content_bottom keep_margins us s a in
+    if Qle_bool (inject_Z (c + r)) h && negb (Qle_bool (inject_Z (c + r + b_dec a)) h)
+    then (r + b_dec a)%Z else r
+  else r.
+
+Definition reserve (keep_margins : bool) (us : list unit) (forced : nat -> bool) (h : Q) (s b : nat) : Z :=
+  fold_left (retry_step keep_margins us forced h s b) (blocks_of us) 0%Z.
+
 (* ------------------------------------------------------------------ the document model *)
 
 Definition page_height (rules : list prule) (pt : ptype) : Q := g_h (page_box_geometry rules pt).
@@ -555,6 +616,12 @@ Definition page_height (rules : list prule) (pt : ptype) : Q := g_h (page_box_ge
 Definition fits_doc (css_names : bool) (d : doc) (us : list unit) (st : pstate) (s e : nat) : bool :=
   Qle_bool (inject_Z (extent (keep_margins css_names us s) us s e))
            (page_height (d_rules d) (content_ptype css_names (d_rtl d) us st s)).
+
+(* the same test with the bottomSpace the second layouts of inFlowLayout reserve *)
+Definition fits_retry (css_names : bool) (d : doc) (us : list unit) (st : pstate) (s e : nat) : bool :=
+  let km := keep_margins css_names us s in
+  let h := page_height (d_rules d) (content_ptype css_names (d_rtl d) us st s) in
+  Qle_bool (inject_Z (extent km us s e + reserve km us (forced_at css_names us) h s e)) h.
 
 Definition init_pstate (d : doc) : pstate := mkPS 0 (first_page_right (d_rtl d) (d_root_bb d)).
 
